@@ -2,20 +2,42 @@
    include/libast.h (ASSERT/REQUIRE block, DPRINTFn block, D_* block, __DEBUG).  Only data
    types live here; Gen/DebugLadder.v (regenerated from the source tree on every run) is a
    value of type [list macro], Debug/DebugModel.v interprets it. *)
-From Coq Require Export List ZArith Bool String.
+From Coq Require Export List ZArith Bool.
+From Coq Require Import Init.Byte.
 Export ListNotations.
 Local Open Scope Z_scope.
 
+(* macro names: a private string type (bytes), written "D_CONF" in scope mn_scope.  (Coq's own [string]
+   is not used so that the extracted OCaml code does not define a type called string.) *)
+Inductive mname : Set := MN (bytes : list byte).
+Definition mname_of_bytes (l : list byte) : mname := MN l.
+Definition bytes_of_mname (n : mname) : list byte := match n with MN l => l end.
+Declare Scope mn_scope.
+Delimit Scope mn_scope with mn.
+Bind Scope mn_scope with mname.
+String Notation mname mname_of_bytes bytes_of_mname : mn_scope.
+
+Fixpoint bytes_eqb (a b : list byte) : bool :=
+  match a, b with
+  | [], [] => true
+  | x :: a', y :: b' => Byte.eqb x y && bytes_eqb a' b'
+  | _, _ => false
+  end.
+Definition mname_eqb (a b : mname) : bool := bytes_eqb (bytes_of_mname a) (bytes_of_mname b).
+
 (* compile-time conditions: the atoms occurring in the #if / #ifdef lines of the blocks, with the
    polarity under which the #define is reached (false = the #else branch) *)
+(* comparison operators that may relate DEBUG / DEBUG_LEVEL to a level constant *)
+Inductive cmp : Set := Ge | Gt | Le | Lt | Eq | Ne.
+
 Inductive catom : Set :=
-| CDebugGe (k : Z) (pol : bool)      (* #if DEBUG >= k *)
+| CDebug (o : cmp) (k : Z) (pol : bool)   (* #if DEBUG o k   (in the header: DEBUG >= k) *)
 | CFileLine (pol : bool)             (* #if defined(__FILE__) && defined(__LINE__) *)
 | CGnuc (pol : bool).                (* #ifdef __GNUC__ *)
 
 (* runtime conditions inside macro bodies *)
 Inductive rcond : Set :=
-| RGe (k : Z)                        (* DEBUG_LEVEL >= k *)
+| RCmp (o : cmp) (k : Z)             (* DEBUG_LEVEL o k   (in the header: DEBUG_LEVEL >= k) *)
 | RConst (b : bool).                 (* 0 / 1 *)
 
 (* the output calls a body may contain *)
@@ -34,8 +56,8 @@ Inductive body : Set :=
 | Out (p : prim) (user_args : bool)  (* call of an output function; user_args: the argument list is the macro
                                         parameter (so evaluating the call evaluates the user's arguments) *)
 | Return (with_val : bool)           (* return; / return (val); - the latter evaluates val *)
-| Call (name : string)               (* another macro of the ladder used as a statement: __DEBUG(); DPRINTF(x); *)
-| Under (name : string) (b : body)   (* NAME { b } where NAME is an if-prefix macro such as D_CONF_IF *)
+| Call (name : mname)               (* another macro of the ladder used as a statement: __DEBUG(); DPRINTF(x); *)
+| Under (name : mname) (b : body)   (* NAME { b } where NAME is an if-prefix macro such as D_CONF_IF *)
 | Mark.                              (* the statement a user puts behind an if-prefix macro; never generated *)
 
 (* a macro definition is a statement or an `if (...)` prefix *)
@@ -43,8 +65,8 @@ Inductive mdef : Set :=
 | DStmt (b : body)
 | DPrefix (rc : rcond).
 
-Record macro : Set := { m_name : string; m_alts : list (list catom * mdef) }.
+Record macro : Set := { m_name : mname; m_alts : list (list catom * mdef) }.
 
 (* one subsystem macro D_X with its prefix form, the value of its DEBUG_X #define and the level its doc
    comment states ("Set ... debugging to level N.") *)
-Record dfam : Set := { d_name : string; d_if : string; d_define : Z; d_doc : Z }.
+Record dfam : Set := { d_name : mname; d_if : mname; d_define : Z; d_doc : Z }.
